@@ -64,7 +64,19 @@ def add_gadgets(rng, m):
         return m["n"] - 1
     kind = rng.random()
     base = F(rng.randint(-3, 0 if nonpos else 3))
-    if kind < .2:
+    if kind < .15:
+        # (d) implicit absorbing state (certain zero-reward self-loops, NOT flagged) whose rows also LIST an
+        # impossible successor (probability 0) that carries a non-zero reward: still absorbing; a state
+        # whose only way to terminate is through it (decides the placeholder mask at discount 1)
+        g_ = new_state([0, 1])
+        for a in (0, 1):
+            m["trans"]["%d,%d" % (g_, a)] = [[g_, "1"], [tgt, "0"]]
+            m["reward"]["%d,%d,%d" % (g_, a, tgt)] = str(F(rng.choice([-3, -1, 2 if not nonpos else -2])))
+        s = new_state([0])
+        m["trans"]["%d,0" % s] = [[g_, "1/2"], [s, "1/2"]]
+        m["reward"]["%d,0,%d" % (s, g_)] = str(F(rng.randint(-3, -1)))
+        m["init"] = [[x, str(F(p) / 2)] for x, p in m["init"]] + [[s, "1/2"]]
+    elif kind < .3:
         # (c) boundary of the implicit-absorbing rule: zero-reward state whose every action self-loops with
         # probability 1 - 2^-k (NOT absorbing), escaping to a state of non-zero value
         k = rng.choice([10, 17, 20, 30])
@@ -109,6 +121,16 @@ def gen_case(rng, tier):
         gamma = rng.choice(["1023/1024", "1/1024", "255/256"])     # boundaries of (0,1)
     nmax = 5 if tier == "quick" else 7
     m = gen_mdp.gen_mdp(rng, nmax=nmax, amax=3, gamma=gamma, proper=(gamma == "1" and rng.random() < .7))
+    nondyadic = rng.random() < .15
+    if nondyadic:
+        # probabilities that are not exactly representable (thirds, sevenths, tenths): a single-precision
+        # or otherwise rounded copy of the transition tensor no longer sums to 1
+        for key, row in m["trans"].items():
+            pos = [i for i, (ns, p) in enumerate(row) if F(p) > 0]
+            if len(pos) >= 2:
+                ps = gen_mdp._split_prob(rng, len(pos), denom=rng.choice([3, 7, 10]) if len(pos) <= 3 else 10)
+                for i, pp in zip(pos, ps):
+                    row[i] = [row[i][0], str(pp)]
     if rng.random() < .4:
         m = add_gadgets(rng, m)
     if gamma == "1" and rng.random() < .6:
@@ -139,6 +161,8 @@ def gen_case(rng, tier):
         k = rng.choice([256, 1024])
         m["reward"] = {kk: str(F(v) * k) for kk, v in m["reward"].items()}
     eps = rng.choice(["1/10", "1/100", "1/100000", "1/100000000"]) if rng.random() < .5 else "1/100000"
+    if nondyadic:
+        eps = rng.choice(["1/100000000", "1/10000000000"])
     mi = rng.choice([100000] * 8 + [1, 2, 5])
     batch = None
     if rng.random() < .35:
@@ -146,7 +170,10 @@ def gen_case(rng, tier):
         nb = m["n"] if (rng.random() < .4 and m["n"] >= 2) else rng.choice([2, 3, 4])
         pos = rng.randrange(nb)
         gs = ["1"] if F(m["gamma"]) == 1 else ["1/2", "3/4", "9/10", "1/5", "19/20"]
-        batch = {"variants": [None if k == pos else {"scale": rng.choice(["2", "3", "1/2", "5"]), "gamma": rng.choice(gs)}
+        # half of the other problems carry NEGATED state and action labels (-s-1, -a-1): their sorted state and
+        # action lists are different objects in a different order, so results must be labelled per problem
+        batch = {"variants": [None if k == pos else {"scale": rng.choice(["2", "3", "1/2", "5"]), "gamma": rng.choice(gs),
+                                                      "negated_labels": rng.random() < .5}
                               for k in range(nb)]}
     return {"mdp": m, "max_residual": eps, "max_iterations": mi, "batch": batch,
             "undefined_value": rng.choice(["0", "-7", "-inf", "-inf"] if gamma == "1" else ["0", "0", "-7", "-inf"]),
